@@ -19,7 +19,7 @@ chk("C20", "Coq theorems over the model of Position::from_index, Parser::error's
 chk("C10", "Coq theorems for the three facts the bitmap skipper rests on, for all inputs: the escaped-character bitmap (get_escaped_branchless, any even width, carry across blocks), prefix_xor = running quote parity, and 'counting one bracket kind stops exactly at the matching bracket'; plus soundness of the validating skipper used by the checked walker. Tie: 15 lookup variants (checked/unchecked x 5 carriers, LazyValue/OwnedLazyValue/Value pointer) on generated well-formed documents and block-edge documents, spans compared with lookup on the executable reference parse.",
     "The per-block popcount bookkeeping of skip_container_loop and the path walkers are tied by the correspondence only; the reference parser (Spec/Ref.v) is cross-checked against the verified recogniser on every C02 case.",
     "Coq proof (bit-list induction, counting argument) + model-vs-code correspondence")
-chk("C11", "Coq theorem: every slot the model of get_many_rec/get_many_keys (with the list of walked nodes the code keeps since the repair of F37) fills holds exactly what single-path lookup finds for that slot's path, on EVERY document tree - repeated member names included - path trie and early-exit pattern (mutual fuel induction, Model/ManySeen.v); the search without that list is refuted on a repeated name and equals the repaired one on documents without. Tie: get_many/get_many_unchecked on generated documents x path sets judged slot by slot by the extracted reference lookup; get_by_schema against the reference merge.",
+chk("C11", "Coq theorem: every slot the model of get_many_rec/get_many_keys (with the list of walked nodes the code keeps since the repair of F37) fills holds exactly what single-path lookup finds for that slot's path, on EVERY document tree - repeated member names included - path trie and early-exit pattern (mutual fuel induction, Model/ManySeen.v); the search without that list is refuted on a repeated name and equals the repaired one on documents without. Tie: get_many/get_many_unchecked on generated documents x path sets judged slot by slot by the extracted reference lookup, and - for paths of member names - compared with the slot vector the extracted search model rec2 computes over the extracted build of the path tree (the theorems' own subject is run against the code); get_by_schema against the reference merge.",
     "The model works on the parsed tree (objects); arrays and the text-level walk are covered by the correspondence; completeness (all slots filled when every path resolves) is checked by the verdict op, not yet proved.",
     "Coq proof (invariant over the recursive extraction) + model-vs-code correspondence")
 chk("C12", "Coq theorems: the iterator state machine (first/ending flags around parse_array_elem_lazy / parse_entry_lazy) is latched for every poll sequence and every behaviour of the underlying parser; every yielded element was stepped over by the validating skipper, hence is a well-formed value. Tie: checked/unchecked iterators and LazyValue::into_*_iter over 3 carriers on generated/mutated/trailing-garbage inputs, transcript (spans, decoded keys, terminal, 3 extra polls) compared with the executable reference iterator.",
@@ -95,7 +95,7 @@ EXTRA = {
 NOTE_FIX = {
  "C03": "The event stream the two DOM parsers (parse_dom in place, parse_dom2 copying) hand to their visitor is captured by a recording visitor on every well-formed case and compared with the extracted Visitor.events of the reference tree (op domevents): the premise of the visitor theorem is checked on the implementation on every run; the parsers' control flow itself is not transcribed. Numbers through Spec/Num.v.",
  "C02": "The DOM parser's acceptance (parse_value/array/object) is validated by the correspondence, not transcribed; simdutf8 is modelled by Spec.Ref.utf8_valid (proved equal to the byte automaton of the Unicode standard). Both directions of the skipper and of the strict reference parser are theorems (skip_text_iff, strict_text_iff).",
- "C11": "The model works on the parsed tree (objects); arrays and the text-level walk are covered by the correspondence. Soundness of the search model is a theorem for every document; completeness (every resolvable path is found) and the path-trie construction are theorems for documents without repeated names (get_many_model_correct, transferred to the repaired search); completeness on documents with repeated names rests on the correspondence (the repeated-names stream of C11).",
+ "C11": "The model works on the parsed tree (objects); arrays and the text-level walk are covered by the correspondence. Soundness and completeness of the search model (as repaired: with the list of walked nodes) and the path-trie construction are theorems for every document, repeated member names included (get_many_correct_on_every_document, Model/ManySeenComplete.v).",
  "C12": "The text-level stepping functions (parse_array_elem_lazy / parse_entry_lazy) are tied by the correspondence against Spec.Ref.ref_array_iter / ref_object_iter, whose soundness and completeness are theorems (IterSound, IterObjSound, IterComplete).",
  "C07": "PARTIAL: the Eisel-Lemire path is translated and proved panic-free and well-formed, its rounding correctness and the big-decimal slow path are validated against the specification, not proved; the digit scanner of parse_number is modelled for plain integers only (the rest is validated). Spec/Num.v's rounding is by exact integer arithmetic (rne_div proved to be THE nearest-even quotient) and is proved to be Flocq's round radix2 (FLT_exp (-1074) 53) ZnearestE for every positive rational, normal and subnormal range (Model/NumFlocq.v); the packing of exponent and quotient into a bit pattern is not related to Flocq's B2R. Flocq theorems depend on the four Reals axioms of the standard library.",
 }
